@@ -1232,7 +1232,8 @@ def run(tier, seed, replay=None):
     ctx.cov["rule"] = ("TLC enumerates every NAT type x placement x style configuration and every delivery order of the "
                        "introduction / puncture exchange, with one lost NAT mapping (the host registers again from a "
                        "fresh port) and Lamport clocks passing 2^16; every transition of the state graph is executed on real "
-                       "Community objects behind simulated NAT boxes and the projected state compared; non-trivial = "
+                       "Community objects behind simulated NAT boxes and the projected state compared (also with a second overlay on the "
+                       "same Network in which requester and introduced peer met before); non-trivial = "
                        "distinct (configuration, walk) pairs and distinct recorded schedules")
     ctx.assumptions += ["cone NATs only (endpoint-independent mapping, no hair-pinning); a NAT loses a mapping only "
                         "while the system is at rest (nothing in flight, every introduction followed up) and never "
@@ -1241,7 +1242,13 @@ def run(tier, seed, replay=None):
                         "the introducer is publicly reachable; a follow-up walk starts after the puncture exchange "
                         "of all pending introductions has drained (premise of the property)",
                         "datagrams may be reordered arbitrarily but the wire itself loses none (only NAT boxes drop)",
-                        "key vault signatures and the wire codec are trusted (used to decode datagrams in flight)"]
+                        "key vault signatures and the wire codec are trusted (used to decode datagrams in flight)",
+                        "IPv6 neighbours are a starting state (entered through Network.add_verified_peer / "
+                        "discover_services, as a walk over IPv6 leaves it behind); the simulated network carries IPv4 "
+                        "only, datagrams to an IPv6 address are lost (no-host) and the neighbours never send",
+                        "the overlays of a host share key, endpoint and Network (ipv8_service layout); in the exhaustive "
+                        "graph the other overlay runs to completion before the one under test starts, the recorded "
+                        "schedules interleave both freely"]
     cpus = os.cpu_count() or 4
     quick = tier == "quick"
     mc = {"deadlock_off": False, "coverage": True}
@@ -1400,7 +1407,21 @@ def run(tier, seed, replay=None):
                                   "requests_with_wrapped_identifier": sum(
                                       1 for t in traces for e in t["events"] for p in e.get("emitted", [])
                                       if p["kind"] == "ireq" and e["host"]["gt"] > 65535),
-                                  "datagrams_by_kind_and_style": _style_stats(traces)})
+                                  "datagrams_by_kind_and_style": _style_stats(traces),
+                                  "worlds_meeting_in_two_overlays": sum(
+                                      1 for t in traces if any(c["X"] for c in t["topo"]["contacts"].values())),
+                                  "introductions_in_M_of_a_peer_already_met_in_X": sum(
+                                      1 for t in traces for e in t["events"] for p in e.get("emitted", [])
+                                      if p["kind"] == "iresp" and p["ov"] == "M" and p["from"] == "I" and addr(p["iwan"]) != ZERO
+                                      and any(q["k"] in e["host"]["members"]["X"] and addr(p["iwan"]) in (addr(q["addr"]), addr(q["lan"]))
+                                              for q in e["host"]["peers"])),
+                                  "worlds_with_ipv6_neighbours": sum(1 for t in traces if any(t["topo"]["nbrs"].values())),
+                                  "old_style_requests_answered_by_hosts_with_ipv6_neighbours": sum(
+                                      1 for t in traces for e in t["events"] if t["topo"]["nbrs"].get(e.get("h"))
+                                      for p in e.get("emitted", []) if p["kind"] == "iresp" and not p["ns"]),
+                                  "responses_naming_an_ipv6_neighbour": sum(
+                                      1 for t in traces for e in t["events"] for p in e.get("emitted", [])
+                                      if p["kind"] == "iresp" and ":" in p["iwan"][0])})
         if ok_strict:
             rejected = {tid for _inv, tid in ctl_fut.get()}
             tid = 0
